@@ -813,9 +813,7 @@ const XMLCh* DOMRangeImpl::toString() const
     XMLBuffer retStringBuf(1023, ((DOMDocumentImpl *)fDocument)->getMemoryManager());
     short type = fStartContainer->getNodeType();
     if((type == DOMNode::TEXT_NODE
-        || type == DOMNode::CDATA_SECTION_NODE
-        || type == DOMNode::COMMENT_NODE
-        || type == DOMNode::PROCESSING_INSTRUCTION_NODE)) {
+        || type == DOMNode::CDATA_SECTION_NODE)) {
         if (fStartContainer == fEndContainer) {
             XMLCh* tempString;
             XMLCh temp[4000];
@@ -873,9 +871,7 @@ const XMLCh* DOMRangeImpl::toString() const
 
     type = fEndContainer->getNodeType();
     if((type != DOMNode::TEXT_NODE
-        && type != DOMNode::CDATA_SECTION_NODE
-        && type != DOMNode::COMMENT_NODE
-        && type != DOMNode::PROCESSING_INSTRUCTION_NODE)) {
+        && type != DOMNode::CDATA_SECTION_NODE)) {
         int i=(int)fEndOffset;
         stopNode = fEndContainer->getFirstChild();
         while( i>0 && stopNode!=0 ){
@@ -891,9 +887,7 @@ const XMLCh* DOMRangeImpl::toString() const
         type = node->getNodeType();
 
         if((type == DOMNode::TEXT_NODE
-            || type == DOMNode::CDATA_SECTION_NODE
-            || type == DOMNode::COMMENT_NODE
-            || type == DOMNode::PROCESSING_INSTRUCTION_NODE)) {
+            || type == DOMNode::CDATA_SECTION_NODE)) {
             retStringBuf.append(node->getNodeValue());
         }
         node = nextNode(node, true);
@@ -901,9 +895,7 @@ const XMLCh* DOMRangeImpl::toString() const
 
     type = fEndContainer->getNodeType();
     if((type == DOMNode::TEXT_NODE
-        || type == DOMNode::CDATA_SECTION_NODE
-        || type == DOMNode::COMMENT_NODE
-        || type == DOMNode::PROCESSING_INSTRUCTION_NODE)) {
+        || type == DOMNode::CDATA_SECTION_NODE)) {
 
         if (fEndOffset != 0) {
 
